@@ -2,6 +2,33 @@
 from .. import core, corpus, spec_parse, run_kani, vspec, oracle
 from .common import Unit
 
+
+def found_err(unit, prog):
+    """(rendered error type declared by the generated FromStr impl, or None)."""
+    from .. import assemble, rtok
+    toks = assemble.find_assoc_type(getattr(unit, '_cur_items', []), prog.name, 'FromStr', 'Err')
+    return rtok.render(toks).replace(' ', '') if toks else None
+
+def signature_obligation(ctx, unit, prog):
+    """C18 / C01: FromStr::Err and TryFrom::Error are the declared parse_err_ty, else strum::ParseError (enums without a default variant)."""
+    from .. import assemble, rtok, core, spec_parse
+    if spec_parse.default_variant(prog) is not None and prog.parse_err_ty:
+        return
+    want = prog.parse_err_ty if (prog.parse_err_ty and spec_parse.default_variant(prog) is None) else 'ParseError'
+    for tr, nm in (('FromStr', 'Err'), ('TryFrom', 'Error')):
+        toks = assemble.find_assoc_type(getattr(unit, '_cur_items', []), prog.name, tr, nm)
+        if toks is None:
+            continue
+        got = rtok.path_last_ident(toks)
+        o = core.Obligation('%s/signature:%s::%s' % (prog.name, tr, nm), prog.name, '%s::%s' % (tr, nm), 'signature', [ctx.pid])
+        if got == want.split('::')[-1]:
+            o.status = 'discharged'
+        else:
+            o.status = 'failed'
+            o.kinds = ['signature']
+            o.detail = 'generated `type %s = %s;` but the property requires %s' % (nm, rtok.render(toks), want)
+        ctx.obligations.append(o)
+
 class ParseUnit(Unit):
     rule = ('enumerated: per variant {no attr, 1..3 serialize, to_string, both} x ascii_case_insensitive {absent, bare, =true, =false} x enum flag x '
             'serialize_all styles x disabled placement x default {none, tuple, named} x default_with x parse_err {std, custom} x kinds/generics/lifetimes; '
@@ -16,7 +43,8 @@ class ParseUnit(Unit):
     def corpus(self, ctx):
         return corpus.corpus_parse(ctx.tier, ctx.seed, ctx.pid)
     def gen(self, ctx, prog):
-        return spec_parse.gen(prog, ctx.pid)
+        signature_obligation(ctx, self, prog)
+        return spec_parse.gen(prog, ctx.pid, found_err(self, prog))
     def kani_module(self, ctx, prog):
         extra = spec_parse.EQ_IGNORE_HARNESS if prog is self._first and ctx.pid == 'C12' else ''
         return spec_parse.kani_module(prog, extra=extra)
